@@ -11,7 +11,7 @@ from ..core import Clause, Violation, Discard
 from .. import gens, refmodel
 from ..trace import Trace
 
-RULE = ("Cases: the full finite grid variant in {sift, mask_sift(zc), mask_sift(list), ensemble_sift, complete_ensemble_sift, "
+RULE = ("Cases: the full finite grid variant in {sift, mask_sift(zc), mask_sift(list), ensemble_sift and complete_ensemble_sift in both noise modes, "
         "sift_second_layer} x IMF options (3 stop rules x step in {1, 0.5} with non-default thresholds) x interp_method "
         "(3) x extrema options {pad 1; pad 4 + parabolic; custom median stat_length 3; defaults} x delivery route "
         "{keyword dicts, **SiftConfig, SiftConfig.get_func(), functools.partial} x nprocesses in {1, 3} x 1 (quick) / 2 "
@@ -46,7 +46,8 @@ EXTREMA = [
     {'pad_width': 2, 'mag_pad_opts': {'mode': 'median', 'stat_length': 3}},
     None,
 ]
-VARIANTS = ['sift', 'mask_sift_zc', 'mask_sift_list', 'ensemble_sift', 'complete_ensemble_sift', 'sift_second_layer']
+VARIANTS = ['sift', 'mask_sift_zc', 'mask_sift_list', 'ensemble_sift', 'complete_ensemble_sift', 'ensemble_sift_flip',
+            'complete_ensemble_sift_flip', 'sift_second_layer']
 ROUTES = ['kwargs', 'config', 'get_func', 'partial']
 
 
@@ -70,7 +71,7 @@ def enum_grid(tier):
             for io in range(len(IMF_OPTS)):
                 for it in range(len(INTERP)):
                     for xo in range(len(EXTREMA)):
-                        for npr in ([1] if v in ('sift', 'sift_second_layer') else [1, 3]):
+                        for npr in ([1] if v in ('sift', 'sift_second_layer') or (tier == 'quick' and v.endswith('flip')) else [1, 3]):
                             yield {'sig': s, 'variant': v, 'imf': io, 'interp': it, 'extrema': xo, 'nproc': npr}
 
 
@@ -87,10 +88,14 @@ def call_variant(emd, variant, route, x, imf_opts, envelope_opts, extrema_opts, 
                  'mask_freqs': 'zc' if variant.endswith('zc') else [0.3, 0.1, 0.03]}
     elif variant == 'sift':
         func, name, extra = S.sift, 'sift', {'max_imfs': 3}
-    elif variant == 'ensemble_sift':
+    elif variant.startswith('ensemble_sift'):
         func, name, extra = S.ensemble_sift, 'ensemble_sift', {'max_imfs': 2, 'nprocesses': nproc, 'nensembles': 3}
-    elif variant == 'complete_ensemble_sift':
+        if variant.endswith('flip'):
+            extra['noise_mode'] = 'flip'
+    elif variant.startswith('complete_ensemble_sift'):
         func, name, extra = S.complete_ensemble_sift, 'complete_ensemble_sift', {'max_imfs': 2, 'nprocesses': nproc, 'nensembles': 3}
+        if variant.endswith('flip'):
+            extra['noise_mode'] = 'flip'
     else:
         func, name, extra = S.sift_second_layer, 'sift', {'max_imfs': 2}
     stage = {}
